@@ -1,6 +1,6 @@
 (* C16 — evaluators for generated correspondence cases (kernel path: gen/C16_*.v). Definitions only. *)
 From Coq Require Import QArith Qabs List Bool ZArith NArith.
-From Scenic Require Import C16.RegionAlg C16.Project.
+From Scenic Require Import C16.RegionAlg C16.Project C16.Pass1.
 Import ListNotations.
 Open Scope Q_scope.
 
@@ -19,7 +19,9 @@ Inductive pcase :=
 | CPointSetMem (pts : list pt) (tol : Q) (p : pt) (expect : bool)
 | CGridMem (grid : list (list Z)) (Ax Ay Bx By : Q) (sx sy : Z) (x y : Q) (expect : bool)
 | CComp (r : region) (p : pt) (expect : bool)
-| CProject (contains : bool) (ts : list Q) (impl : option Q) (tol : Q).
+| CProject (contains : bool) (ts : list Q) (impl : option Q) (tol : Q)
+| CPass1 (position : pt) (vs : list pt) (r tol : Q)
+| CPass1Ix (c1 : pt) (r1 : Q) (c2 : pt) (r2 : Q) (impl_intersects : bool).
 
 Definition eval_case (c : pcase) : bool :=
   match c with
@@ -43,6 +45,10 @@ Definition eval_case (c : pcase) : bool :=
       | None, None => true
       | _, _ => false
       end
+  (* the fallback circumradius is the largest vertex distance from the region's POSITION *)
+  | CPass1 p vs r tol => Qle_bool 0 r && close (circumradius_sq p vs) (r * r) tol
+  (* whenever PASS 1 separates the operands the implementation answers False *)
+  | CPass1Ix c1 r1 c2 r2 impl => implb (pass1_disjoint c1 r1 c2 r2) (negb impl)
   end.
 
 (* indices of failing cases *)
